@@ -1,7 +1,7 @@
 """C17 configuration for bin/check."""
 CFG = dict(
     level="proof", pfile="P_C17.v", rmod="R_C17", judge="judge_C17",
-    level_text="Theorems about the model of (*Report).Stacks (makeInitialStacks + fillPlaces), for ALL profiles (recursion, inlining, "
+    level_text="End-to-end: glue model of the /flamegraph path (flags, URL parameters, default granularity, sample selection, aggregation, stateless sessions) with theorems web_session_history_irrelevant, url_sample_index_overrides_command_line, flamegraph_one_stack_per_loaded_sample, tied to driver.PProf + serveWebInterface by ~390 end-to-end cases per quick run. Theorems about the model of (*Report).Stacks (makeInitialStacks + fillPlaces), for ALL profiles (recursion, inlining, "
                "lines without function, empty stacks, locations without lines, equal names in different files), all options and all "
                "oracle answers: one stack per sample in order with the selected value; each stack = synthetic root + the sample's frames "
                "caller->callee with inlined frames expanded and flagged (slot by slot: name+line info, file, inlined); sources interned "
@@ -17,7 +17,7 @@ CFG = dict(
                "vm_compute, harness, go build -overlay, encoding/json + html/template hand-off as exercised.",
     shard=150,
     translators=[("gen-unittable", "Gen/Gen_UnitTable.v")],
-    rule="inputs = (profile as held by the report after aggregation, options {sample index, mean divisor, type, unit, trim path, ratio}, "
+    rule="END-TO-END: driver.PProf -http with generated command lines (sample_index / legacy selection flags / mean / granularity / noinlines / showcolumns / trim_path / divide_by and irrelevant flags), profile fetched from serialized bytes through a Fetcher plug-in, real handler table, request histories (other views before and between /flamegraph requests, repeats, refused requests); deterministic streams e2e-history, e2e-flag-x-url, e2e-options on a not pre-aggregated 3-type profile, plus e2e-random; judged against the glue model applied to the harness's own parse of the same bytes. CORE: inputs = (profile as held by the report after aggregation, options {sample index, mean divisor, type, unit, trim path, ratio}, "
          "oracle tables); generators: seeded random profiles biased to few names/files (collisions), recursion (repeated locations), "
          "self-inlining, lines differing only in line/column, nil functions, empty stacks, locations without lines, diff-base labels, "
          "extreme int64 values x 6 granularities x noinlines/showcolumns; a third of them with shared backing arrays (same / overlapping / adjacent Location slices, shared Line and Value arrays); call sequences (\"seq\" cases: Stacks() 2-5 times on one report or on several reports sharing the profile, every returned stack set judged against the original profile, profile dumped again afterwards); web pages are read the way a browser does (HTML tokenizer delimits the script element, then the stackViewer(...) call is decoded; names/files with script end tags, comment openers, <>&, quotes, control characters); web sessions (2-4 /flamegraph requests through one webInterface, incl. a refused request in between); the same through the web handler with URL parameters "
@@ -31,7 +31,8 @@ CFG = dict(
                   "export shims internal/report/zz_verif_c17.go, internal/driver/zz_verif_c17.go (add-only; the driver shim calls the real "
                   "stackView handler and re-runs generateRawReport with the same configuration to hand the model the profile/options)",
                   "Scale compared within 2^-40 relative (float64 vs exact rational); unit table regenerated from /repo (gen-unittable)"],
-    assumptions=["the script engine is approximated: the stackViewer call must read JSON, comma, JSON, \");\" and nothing else up to the end of the script element as the HTML tokenizer delimits it",
+    assumptions=["end-to-end layer: one source, no filters/tagroot/base profiles, DropFrames/KeepFrames empty, distinct sample type names, no saved settings",
+                 "the script engine is approximated: the stackViewer call must read JSON, comma, JSON, \");\" and nothing else up to the end of the script element as the HTML tokenizer delimits it",
                  "encoding/json string encoding is modelled for valid UTF-8 without U+2028/U+2029",
                  "call sequences: the reports share one profile and only Stacks() is called between the two profile dumps",
                  "profile pointers are modelled as ids: locations/functions referenced by samples/lines exist and ids are unique (profile.CheckValid)",
